@@ -1,7 +1,9 @@
 package props
 
 import (
+	"go/constant"
 	"math/big"
+	"strings"
 
 	"golang.org/x/tools/go/ssa"
 
@@ -179,6 +181,11 @@ func c12ToInt(c *Ctx) {
 		}
 	}
 	_ = pk
+	if !okR && radix != nil {
+		if v, ok := evalBig(c, radix, 0); ok && v != nil {
+			okR = v.Cmp(three40) == 0 && three40.Cmp(two64) < 0 && three41.Cmp(two64) >= 0
+		}
+	}
 	if g == nil {
 		// renamed or turned into a constant: the value 3^40 is then part of the folded term C12.toInt.structure matches
 		// (ana.ConstGlobal folds only variables with a single writer, the initialiser)
@@ -202,6 +209,10 @@ func c12ToInt(c *Ctx) {
 		t := b.Of(e.Results[0], e.Instr)
 		_, okH := ana.Match(hdr, t)
 		mul, _ := ana.Find("maybe(call<(*math/big.Int).Mul>(self, self, obj(alloc<math/big.Int>, call<(*math/big.Int).SetUint64>(self, 12157665459056928801))))", t)
+		if mul == nil && okR && w == 1 && g != nil {
+			// the radix read from its package variable, whose single initialiser folds to 3^40 (C12.toInt.radix)
+			mul, _ = ana.Find("maybe(call<(*math/big.Int).Mul>(self, self, load(global<"+g.String()+">)))", t)
+		}
 		add, _ := ana.Find("maybe(call<(*math/big.Int).Add>(self, self, obj(alloc<math/big.Int>, call<(*math/big.Int).SetUint64>(self, phi(bin<+>("+horner+", 1), "+horner+")), ...)))", t)
 		if add == nil {
 			add, _ = ana.Find("maybe(call<(*math/big.Int).Add>(self, self, obj(alloc<math/big.Int>, maybe(call<(*math/big.Int).SetUint64>(self, phi(bin<+>("+horner+", 1), "+horner+"))))))", t)
@@ -250,6 +261,12 @@ func c12Thresholds(c *Ctx) {
 					}
 				}
 			}
+		}
+	}
+	if !okM && mh != nil {
+		// however the constant is written (hex literal, Exp(3, 243), …): the initialiser folds to 3^243
+		if v, ok := evalBig(c, mh, 0); ok && v != nil && v.Cmp(three243) == 0 {
+			okM = true
 		}
 	}
 	if g == nil {
@@ -471,4 +488,108 @@ func c12Name(c *Ctx, name string) string {
 		return f.String()
 	}
 	return "<missing " + name + ">"
+}
+
+// evalBig folds a term that denotes a constant *big.Int (an initialiser): NewInt(c), new(big.Int) followed by
+// SetString / SetUint64 / SetInt64 / Exp / Mul / Add / Sub / Lsh with constant operands, or a repository helper that
+// computes one (looked through). ok is false for anything else.
+func evalBig(c *Ctx, t *ana.Term, depth int) (*big.Int, bool) {
+	if t == nil || depth > 6 {
+		return nil, false
+	}
+	if k, isInt := t.Int(); isInt {
+		return big.NewInt(k), true
+	}
+	if t.C != nil && t.C.Kind() == constant.Int {
+		if v, ok := new(big.Int).SetString(t.C.ExactString(), 10); ok {
+			return v, true
+		}
+	}
+	switch {
+	case t.Is("nil"):
+		return nil, true
+	case t.Is("conv"):
+		return evalBig(c, t.Arg(0), depth+1)
+	case t.Is("alloc", "math/big.Int"):
+		return new(big.Int), true
+	case t.Is("call", "math/big.NewInt"):
+		return evalBig(c, t.Arg(0), depth+1)
+	case t.Is("obj"):
+		cur, ok := evalBig(c, t.Arg(0), depth+1)
+		if !ok || cur == nil {
+			return nil, false
+		}
+		cur = new(big.Int).Set(cur)
+		arg := func(a *ana.Term) (*big.Int, bool) {
+			if a.Is("self") {
+				return new(big.Int).Set(cur), true
+			}
+			return evalBig(c, a, depth+1)
+		}
+		for _, ev := range t.Args[1:] {
+			if !ev.Is("call") || len(ev.Args) < 2 || !ev.Arg(0).Is("self") || !strings.HasPrefix(ev.Name, "(*math/big.Int).") {
+				return nil, false
+			}
+			m := strings.TrimPrefix(ev.Name, "(*math/big.Int).")
+			switch m {
+			case "SetString":
+				str, isS := ev.Arg(1).Str()
+				base, okB := ev.Arg(2).Int()
+				if !isS || !okB {
+					return nil, false
+				}
+				v, okV := new(big.Int).SetString(str, int(base))
+				if !okV {
+					return nil, false
+				}
+				cur = v
+			case "SetUint64", "SetInt64", "Set":
+				v, okV := arg(ev.Arg(1))
+				if !okV || v == nil {
+					return nil, false
+				}
+				cur = v
+			case "Exp", "Mul", "Add", "Sub", "Lsh":
+				x, ok1 := arg(ev.Arg(1))
+				y, ok2 := arg(ev.Arg(2))
+				if !ok1 || !ok2 || x == nil || y == nil {
+					return nil, false
+				}
+				switch m {
+				case "Exp":
+					var mod *big.Int
+					if len(ev.Args) > 3 {
+						mm, ok3 := arg(ev.Arg(3))
+						if !ok3 {
+							return nil, false
+						}
+						mod = mm
+					}
+					if y.BitLen() > 16 {
+						return nil, false
+					}
+					cur = new(big.Int).Exp(x, y, mod)
+				case "Mul":
+					cur = new(big.Int).Mul(x, y)
+				case "Add":
+					cur = new(big.Int).Add(x, y)
+				case "Sub":
+					cur = new(big.Int).Sub(x, y)
+				case "Lsh":
+					if y.BitLen() > 16 {
+						return nil, false
+					}
+					cur = new(big.Int).Lsh(x, uint(y.Int64()))
+				}
+			default:
+				return nil, false
+			}
+		}
+		return cur, true
+	case t.Is("call"):
+		if x, ch := ana.ExpandCalls(c.P, t); ch && x.String() != t.String() {
+			return evalBig(c, x, depth+1)
+		}
+	}
+	return nil, false
 }
